@@ -21,6 +21,8 @@
    judge, see docs/C06.md "missing"): the non-SAME <-> differ equivalence for
    configurations that mix modes per path ([rules]) or configure identity
    keys ([keys]); truthfulness outside positional comparison. *)
+(* obligations tying the models' literal tables to the tables regenerated from the source *)
+From YP Require Import GenTables.
 From Coq Require Import List Ascii String ZArith NArith Bool Arith Permutation.
 From YP Require Import Outcome PyStr PyVal Doc Diff C06Spec DiffBase DiffPos DiffTotal DiffSync DiffEq
   DiffKeys DiffCover DiffAcct DiffSym DiffKSync DiffIff DiffIffKey.
